@@ -101,6 +101,22 @@ def owner_name(fn, depth=4, use_atoms=True):
     return resolve(_named(fn.nkey), depth, frozenset())
 
 
+def owner_chain(fn, depth=4):
+    """The named function containing `fn`'s code and, while each has exactly one calling function, its callers in turn."""
+    facts = fn.facts
+    name = _named(fn.nkey)
+    out = [name]
+    for _ in range(depth):
+        callers = {_named(c.fn.nkey) for c in facts.call_sites_of(name)} - {name}
+        if len(callers) != 1:
+            break
+        name = callers.pop()
+        if name in out:
+            break
+        out.append(name)
+    return out
+
+
 class Site:
     def __init__(self, fn, bb, kind, callee, msg, macro, noise):
         self.fn = fn
